@@ -3,12 +3,15 @@
 SPECS = {
     "C31": {
         "quick": ["c31_scalar_pair", "c31_scalar_triple", "c31_float_pair", "c31_float_triple",
-                  "c31_tuple1_pair", "c31_tuple12_pair", "c31_vector_pair", "c31_vector8_pair"],
+                  "c31_tuple1_pair", "c31_tuple12_pair", "c31_vector_pair", "c31_vector8_pair",
+                  "c31_kind_pair", "c31_kind_triple"],
         "thorough": ["c31_string_pair", "c31_string_scalar", "c31_tuple2_pair"],
         "functions": ["<inputlayer::Value as Ord>::cmp", "<Value as PartialOrd>::partial_cmp", "<Value as PartialEq>::eq",
                       "<Value as Hash>::hash", "<Tuple as Ord>::cmp", "<Tuple as PartialEq>::eq", "<Tuple as Hash>::hash"],
         "bounds": {
             "*": "scalars: all 6 scalar kinds x full-width payloads (every i32/i64/f64 bit pattern); pairs and triples",
+            "c31_kind_pair": "two values of any of the nine kinds (scalars full width; string in {a,b}, f32 vector in {[],[0.5]}, i8 vector in {[],[1]})",
+            "c31_kind_triple": "three values of any of the nine kinds (same payload domains): transitivity across kinds",
             "c31_string_pair": "ASCII strings of length <= 2",
             "c31_string_scalar": "ASCII string (len <= 2) x two arbitrary scalars, all orderings of the triple",
             "c31_vector_pair": "f32 vectors of length <= 2, every f32 bit pattern",
